@@ -35,6 +35,7 @@ def check(ctx):
     from .c14 import neighbourhood
     neighbourhood(ctx)
     edges.check_walks(ctx, categories={'derivation', 'incompat-scan', 'default'})
+    edges.check_exhaustive_scans(ctx)
     # the connection part of the instance: source/target sides of the connection-matrix code mirror each other
     # (index translations, degree limits), and an encoder cached on disk is only re-used for the same settings
     from ..rules import symmetry
